@@ -252,6 +252,7 @@ struct PhaseResult {
     agg: Agg,
     viols: Vec<ViolRec>,
     died: Vec<(u64, i64)>,
+    hung: Vec<(u64, i64)>,
 }
 
 fn merge(a: &mut Agg, b: Agg) {
@@ -283,7 +284,7 @@ fn merge(a: &mut Agg, b: Agg) {
 }
 
 fn run_phase(prop: &str, tier: &str, batch: u64, flavour: &str, total: u64, workers: u64, index_base: u64) -> PhaseResult {
-    let mut res = PhaseResult { agg: Agg::default(), viols: vec![], died: vec![] };
+    let mut res = PhaseResult { agg: Agg::default(), viols: vec![], died: vec![], hung: vec![] };
     if total == 0 {
         return res;
     }
@@ -298,6 +299,7 @@ fn run_phase(prop: &str, tier: &str, batch: u64, flavour: &str, total: u64, work
             let mut agg = Agg::default();
             let mut viols = vec![];
             let mut died = vec![];
+            let mut hung: Vec<(u64, i64)> = vec![];
             // a worker that dies is restarted after the run that killed it
             let mut done = 0u64;
             while done < count {
@@ -312,8 +314,31 @@ fn run_phase(prop: &str, tier: &str, batch: u64, flavour: &str, total: u64, work
                 let mut last: Option<(u64, i64)> = None;
                 let mut finished = false;
                 let mut histories_started = 0u64;
-                for line in out.lines() {
-                    let Ok(line) = line else { break };
+                // a reader thread, so that a run that hangs (no progress for a long time) is detected
+                let (tx, rx) = std::sync::mpsc::channel::<String>();
+                let reader = std::thread::spawn(move || {
+                    for line in out.lines() {
+                        let Ok(line) = line else { break };
+                        if tx.send(line).is_err() {
+                            break;
+                        }
+                    }
+                });
+                let stall = std::time::Duration::from_secs(180);
+                loop {
+                    let line = match rx.recv_timeout(stall) {
+                        Ok(l) => l,
+                        Err(std::sync::mpsc::RecvTimeoutError::Timeout) => {
+                            // no run takes this long: the in-flight run hangs
+                            let _ = child.kill();
+                            if let Some(l) = last {
+                                hung.push(l);
+                                last = None;
+                            }
+                            break;
+                        }
+                        Err(_) => break,
+                    };
                     if let Some(rest) = line.strip_prefix("START ") {
                         let mut it = rest.split(' ');
                         let i: u64 = it.next().unwrap().parse().unwrap();
@@ -333,6 +358,7 @@ fn run_phase(prop: &str, tier: &str, batch: u64, flavour: &str, total: u64, work
                         }
                     }
                 }
+                let _ = reader.join();
                 let _ = child.wait();
                 if finished {
                     break;
@@ -343,14 +369,15 @@ fn run_phase(prop: &str, tier: &str, batch: u64, flavour: &str, total: u64, work
                 }
                 done += histories_started.max(1);
             }
-            (agg, viols, died)
+            (agg, viols, died, hung)
         }));
     }
     for h in handles {
-        let (a, v, d) = h.join().expect("worker thread");
+        let (a, v, d, hg) = h.join().expect("worker thread");
         merge(&mut res.agg, a);
         res.viols.extend(v);
         res.died.extend(d);
+        res.hung.extend(hg);
     }
     res
 }
@@ -365,10 +392,33 @@ pub fn run_in_child(plan: &Plan, flavour: &str) -> Vec<(String, String)> {
     let _ = std::fs::create_dir_all(dir);
     let path = format!("{}/plan-{}-{:?}.json", dir, std::process::id(), std::thread::current().id());
     std::fs::write(&path, serde_json::to_string(plan).unwrap()).unwrap();
-    let out = Command::new(exe(flavour)).args(["runplan", &path]).stdout(Stdio::piped()).stderr(Stdio::null()).output();
+    let outpath = format!("{}.out", path);
+    let outfile = std::fs::File::create(&outpath).unwrap();
+    let child = Command::new(exe(flavour)).args(["runplan", &path]).stdout(Stdio::from(outfile)).stderr(Stdio::null()).spawn();
+    let Ok(mut child) = child else { return vec![("HARNESS".into(), "spawn-failed".into())] };
+    let t0 = std::time::Instant::now();
+    let mut hung = false;
+    loop {
+        match child.try_wait() {
+            Ok(Some(_)) => break,
+            Ok(None) => {
+                if t0.elapsed().as_secs() > 120 {
+                    let _ = child.kill();
+                    let _ = child.wait();
+                    hung = true;
+                    break;
+                }
+                std::thread::sleep(std::time::Duration::from_millis(5));
+            }
+            Err(_) => break,
+        }
+    }
+    let text = std::fs::read_to_string(&outpath).unwrap_or_default();
     let _ = std::fs::remove_file(&path);
-    let Ok(out) = out else { return vec![("HARNESS".into(), "spawn-failed".into())] };
-    let text = String::from_utf8_lossy(&out.stdout);
+    let _ = std::fs::remove_file(&outpath);
+    if hung {
+        return vec![("*".into(), "hang".into())];
+    }
     let mut sigs = vec![];
     let mut done = false;
     for l in text.lines() {
@@ -458,6 +508,9 @@ pub fn check(prop: &str, tier: &str) -> i32 {
         merge(&mut agg, ph.agg);
         viols.extend(ph.viols);
         died.extend(ph.died.into_iter().map(|(i, k)| (flavour.to_string(), i, k)));
+        for (i, k) in ph.hung {
+            viols.push(ViolRec { i, k, seed: mix(batch, i), property: prop.to_string(), rule: "hang".into(), detail: "the run made no progress for 180 s (livelock or unbounded loop); the worker was killed".into(), flavour: flavour.to_string() });
+        }
     }
     agg.hashes.sort();
     agg.hashes.dedup();
@@ -487,7 +540,7 @@ pub fn check(prop: &str, tier: &str) -> i32 {
             plan.knobs.crash_at = Some(v.k as u64);
         }
         let target = (prop.to_string(), rule.clone());
-        let in_child = rule == "process-died" || flavour != current_flavour();
+        let in_child = rule == "process-died" || rule == "hang" || flavour != current_flavour();
         let fl = flavour.clone();
         let runner = move |p: &Plan| -> Vec<(String, String)> {
             if in_child {
@@ -508,8 +561,8 @@ pub fn check(prop: &str, tier: &str) -> i32 {
             }
             s
         };
-        let mut sh = Shrinker { target: target.clone(), run: &runner2, budget: if in_child { 300 } else { 3000 }, used: 0 };
-        let reproduced = runner2(&plan).contains(&target);
+        let mut sh = Shrinker { target: target.clone(), run: &runner2, budget: if rule == "hang" { 0 } else if in_child { 300 } else { 3000 }, used: 0 };
+        let reproduced = rule != "hang" && runner2(&plan).contains(&target);
         let min = if reproduced { sh.minimise(&plan) } else { plan.clone() };
         // final run of the minimised plan, to record its detail and trace hash
         let (detail, hash) = if in_child {
@@ -634,11 +687,11 @@ pub fn replay(path: &str) -> i32 {
         let st = Command::new(exe(&rp.flavour)).args(["replay", path]).status();
         return st.ok().and_then(|s| s.code()).unwrap_or(2);
     }
-    if rp.rule == "process-died" {
+    if rp.rule == "process-died" || rp.rule == "hang" {
         let sigs = run_in_child(&rp.plan, &rp.flavour);
-        if sigs.iter().any(|(_, r)| r == "process-died") {
+        if sigs.iter().any(|(_, r)| *r == rp.rule) {
             println!("VIOLATION property={} replay={}", rp.property, path);
-            println!("  rule=process-died: the process running this plan died again");
+            println!("  rule={}: the process running this plan failed the same way again", rp.rule);
             return 1;
         }
         println!("replay of {path}: the process did not die this time");
